@@ -1,0 +1,7 @@
+//go:build !verif
+
+package fstxn
+
+func verifEv(kind int, op *FsTxn, arg uint64) {}
+
+func verifB(b bool) uint64 { return 0 }
